@@ -281,7 +281,7 @@ def successors(G, N, allow):
                     out.append(H)
         # ---- init tasks (root task only)
         if "pre" in allow and l == G["root"] and SCHEMA[cls].get("task") and len(n.get("init", [])) < 2:
-            choices = (["new"] if room >= 1 else []) + [("ref", r) for r in G["nodes"] if node_cls(G, r) == "init"]
+            choices = (["new"] if room >= 1 else []) + [("ref", r) for r in G["nodes"] if node_cls(G, r) == "init" and r not in n["init"]]
             for c in choices:
                 H = clone()
                 r = add_default_node(H, "init") if c == "new" else c[1]
